@@ -102,8 +102,12 @@ func genC12(g *Gen, tier string, w *bufio.Writer) {
 		{Kind: KList, N: 1 << 40, Elem: u64},
 	}
 	for _, t := range small {
-		for rep := 0; rep < 2; rep++ {
+		for rep := 0; rep < 3; rep++ {
 			v := g.RandVal(t, 40)
+			if rep == 2 {
+				// all-zero contents: a summarised region then EQUALS a zero hash, so expansion through it is legitimate
+				v = zeroedVal(t, g.RandVal(t, 40))
+			}
 			vw, err := construct(t, v)
 			if err != nil {
 				continue
@@ -324,4 +328,36 @@ func genC14(g *Gen, tier string, w *bufio.Writer) {
 		mode := []string{"pkg", "own"}[g.Intn(2)]
 		fmt.Fprintf(w, "conc %d %d %s %s %s\n", k, g.U64()%1000000, mode, t, v)
 	}
+}
+
+// zeroedVal keeps the shape (lengths, selectors) of v but zeroes every number, byte and bit
+func zeroedVal(t *Ty, v *Val) *Val {
+	switch t.Kind {
+	case KUint:
+		return DefaultVal(t)
+	case KBool:
+		return &Val{Kind: VBool}
+	case KBytesN:
+		return &Val{Kind: VBytes, Bytes: make([]byte, len(v.Bytes))}
+	case KBitvector, KBitlist:
+		return &Val{Kind: VBits, Bits: make([]bool, len(v.Bits))}
+	case KVector, KList:
+		r := &Val{Kind: VSeq, Seq: []*Val{}}
+		for _, e := range v.Seq {
+			r.Seq = append(r.Seq, zeroedVal(t.Elem, e))
+		}
+		return r
+	case KContainer:
+		r := &Val{Kind: VSeq, Seq: []*Val{}}
+		for i, e := range v.Seq {
+			r.Seq = append(r.Seq, zeroedVal(t.Fields[i], e))
+		}
+		return r
+	case KUnion:
+		if v.Inner.Kind == VNone {
+			return v
+		}
+		return &Val{Kind: VUnion, Sel: v.Sel, Inner: zeroedVal(unionOpt(t, v.Sel), v.Inner)}
+	}
+	return v
 }
